@@ -277,6 +277,18 @@ func TestC19_RaceFree(t *testing.T) {
 				}
 			}
 		}
+		if g.Chance("stampede", 1, 3) {
+			// every goroutine starts with the same call on the same objects: the first use of a key object (a key that
+			// RemoveBLSPublicKeys left un-normalised, a lazily filled cache) by all of them at once
+			c := mk("stampede")
+			w0 := c.run(solo)
+			for gi := range prog {
+				prog[gi] = append([]c19Call{c}, prog[gi]...)
+				want[gi] = append([]string{w0}, want[gi]...)
+			}
+			sharedUsers += G
+			g.Class("stampede:" + c.name)
+		}
 		if solo.snapshot() != ref {
 			g.Fatalf("a key, message, signature or hasher passed as argument was modified by the calls run alone")
 		}
@@ -289,19 +301,19 @@ func TestC19_RaceFree(t *testing.T) {
 			runtime.GOMAXPROCS([]int{2, 4, 16}[run%3])
 			w := c19Build(g, raw) // fresh objects: nothing was touched sequentially before the race
 			got := make([][]string, G)
-			start := make(chan struct{})
+			start := &spinBarrier{n: int32(len(prog))}
 			var wg sync.WaitGroup
 			for gi := range prog {
 				wg.Add(1)
 				go func(gi int) {
 					defer wg.Done()
-					<-start
+					start.wait()
 					for _, c := range prog[gi] {
 						got[gi] = append(got[gi], c.run(w))
 					}
 				}(gi)
 			}
-			close(start)
+			start.open()
 			wg.Wait()
 			for gi := range prog {
 				for j := range prog[gi] {
